@@ -256,7 +256,7 @@ def call_external(self, st, name, args, kwargs, node):
             return [(st, "val", r)]
     if name in ("time.time",):
         return [(st, "val", Top("time", True))]
-    if name.startswith(("operator.", "functools.", "itertools.")):
+    if name.startswith(("operator.", "functools.", "itertools.", "collections.")):
         r = _lazyiter.call_ext(self, st, name, args, kwargs, node)
         if r is not KeyError:
             return r
